@@ -150,6 +150,16 @@ func sortedCNodes(hist []histEntry) []*kernel.CNode {
 	return cn
 }
 
+// sortCNodes orders records exactly as kernel.LoadConsensusNodes does.
+func sortCNodes(cn []*kernel.CNode) {
+	sort.SliceStable(cn, func(i, j int) bool {
+		if cn[i].Timestamp != cn[j].Timestamp {
+			return cn[i].Timestamp < cn[j].Timestamp
+		}
+		return cn[i].IdForNetwork.String() < cn[j].IdForNetwork.String()
+	})
+}
+
 func newFakeStore() *fakeStore {
 	return &fakeStore{
 		works:         map[uint32]map[crypto.Hash][2]uint64{},
